@@ -52,3 +52,52 @@ Definition spec_anchor_lines (su : SourceUnit) (src : string) (l : list (option 
       lines_within 18 src (spec_short_revert v su) (nth_lines l 18) ++
       lines_within 22 src (spec_string_errors v su) (nth_lines l 22)
   end.
+
+(* completeness at the level of reported lines: the line of every construct that MUST be reported (canonical
+   anchors) is among the reported lines; code k = detector k misses such a line *)
+Definition lines_cover (k : N) (src : string) (canon : list Loc) (i : option (list Z)) : list N :=
+  match i with
+  | None => []
+  | Some zs => if incl_z (anchor_lines src canon) zs then [] else [k]
+  end.
+
+Definition spec_anchor_lines_complete (su : SourceUnit) (src : string) (l : list (option (list Z))) : list N :=
+  lines_cover 0 src (spec_address_balance su) (nth_lines l 0) ++
+  lines_cover 1 src (canon_address_zero su) (nth_lines l 1) ++
+  lines_cover 2 src (canon_assign_update su) (nth_lines l 2) ++
+  lines_cover 3 src (spec_bool_equals_bool su) (nth_lines l 3) ++
+  lines_cover 4 src (spec_cache_array_length su) (nth_lines l 4) ++
+  lines_cover 7 src (spec_increment_decrement su) (nth_lines l 7) ++
+  lines_cover 9 src (spec_multiple_require su) (nth_lines l 9) ++
+  lines_cover 10 src (spec_optimal_comparison su) (nth_lines l 10) ++
+  lines_cover 17 src (canon_shift_math su) (nth_lines l 17) ++
+  lines_cover 19 src (spec_solidity_keccak256 su) (nth_lines l 19) ++
+  lines_cover 20 src (spec_solidity_math su) (nth_lines l 20) ++
+  lines_cover 13 src (spec_payable_function su) (nth_lines l 13) ++
+  lines_cover 14 src (spec_private_constant su) (nth_lines l 14) ++
+  lines_cover 27 src (spec_constructor_order su) (nth_lines l 27) ++
+  lines_cover 28 src (spec_private_func su) (nth_lines l 28) ++
+  lines_cover 29 src (spec_private_vars su) (nth_lines l 29) ++
+  lines_cover 23 src (spec_divide_before_multiply su) (nth_lines l 23) ++
+  lines_cover 24 src (spec_floating_pragma su) (nth_lines l 24) ++
+  lines_cover 25 src (spec_unprotected_selfdestruct su) (nth_lines l 25) ++
+  lines_cover 26 src (spec_unsafe_erc20 su) (nth_lines l 26) ++
+  (if hyp_c08 su then
+     lines_cover 5 src (canon_constant su) (nth_lines l 5) ++
+     lines_cover 6 src (canon_immutable su) (nth_lines l 6) ++
+     lines_cover 8 src (canon_m2c su) (nth_lines l 8) ++
+     lines_cover 21 src (canon_sstore su) (nth_lines l 21)
+   else []) ++
+  match file_version su with
+  | None => []
+  | Some v =>
+      lines_cover 15 src (spec_safemath_pre v su) (nth_lines l 15) ++
+      lines_cover 16 src (spec_safemath_post v su) (nth_lines l 16) ++
+      lines_cover 18 src (spec_short_revert v su) (nth_lines l 18) ++
+      lines_cover 22 src (spec_string_errors v su) (nth_lines l 22)
+  end.
+
+(* both directions, for the detector checks C05-C09: k = a canonical line is missing, 100+k = a line is reported on
+   which no matching construct begins *)
+Definition spec_lines_both (su : SourceUnit) (src : string) (l : list (option (list Z))) : list N :=
+  spec_anchor_lines_complete su src l ++ spec_anchor_lines su src l.
